@@ -1342,7 +1342,11 @@ class Index(DomainMapping):
 
     @property
     def _name_(self):
-        return f"{self._child_._var_._name_}[{self._key_}]"
+        key = self._key_
+        if type(key) not in (int, str, float, bool, slice):
+            # the key is user data and the name is needed while the query is built: do not run its __format__
+            key = f"<{type(key).__name__}>"
+        return f"{self._child_._var_._name_}[{key}]"
 
 
 @dataclass(eq=False, repr=False)
